@@ -5,6 +5,7 @@ import (
 	"path/filepath"
 	"sort"
 
+	"github.com/relex/slog-agent/util/vhook"
 	"golang.org/x/sys/unix"
 )
 
@@ -78,7 +79,10 @@ func WriteFileAt(dir *os.File, filename string, data []byte, perm os.FileMode) e
 	if oerr != nil {
 		return oerr
 	}
+	vhook.K("wfa.afterOpen")
 	_, werr := unix.Write(fd, data)
+	vhook.K("wfa.afterWrite")
 	unix.Close(fd)
+	vhook.K("wfa.afterClose")
 	return werr
 }
